@@ -597,7 +597,10 @@ type Resp struct {
 	HexUpper     bool        `json:"hex_upper,omitempty"`
 	LeadingZeros int         `json:"leading_zeros,omitempty"`
 	Trailers     []KV        `json:"trailers,omitempty"`
-	Interim100   int         `json:"interim100,omitempty"` // number of "100 Continue" before it
+	Interim100   int         `json:"interim100,omitempty"` // number of interim responses before it
+	// InterimStatus: which interim response precedes it (0 = "100 Continue"; 102 Processing, 103 Early Hints with a Link field)
+	InterimStatus int    `json:"interim_status,omitempty"`
+	ChunkExt      string `json:"chunk_ext,omitempty"`
 }
 
 // Encode appends the response to dst.
@@ -605,7 +608,14 @@ func (r *Resp) Encode(dst []byte) ([]byte, Marks) {
 	var m Marks
 	m.Start = len(dst)
 	for i := 0; i < r.Interim100; i++ {
-		dst = append(dst, "HTTP/1.1 100 Continue\r\n\r\n"...)
+		switch r.InterimStatus {
+		case 102:
+			dst = append(dst, "HTTP/1.1 102 Processing\r\n\r\n"...)
+		case 103:
+			dst = append(dst, "HTTP/1.1 103 Early Hints\r\nLink: </style.css>; rel=preload\r\n\r\n"...)
+		default:
+			dst = append(dst, "HTTP/1.1 100 Continue\r\n\r\n"...)
+		}
 	}
 	dst = append(dst, r.Proto...)
 	dst = append(dst, ' ')
@@ -629,7 +639,7 @@ func (r *Resp) Encode(dst []byte) ([]byte, Marks) {
 	case FrCL, FrUntilClose:
 		dst = append(dst, r.Body...)
 	case FrChunked:
-		dst = encodeChunked(dst, r.Body, r.ChunkSizes, r.HexUpper, r.LeadingZeros, "", r.Trailers, 0, &m)
+		dst = encodeChunked(dst, r.Body, r.ChunkSizes, r.HexUpper, r.LeadingZeros, r.ChunkExt, r.Trailers, 0, &m)
 	}
 	m.End = len(dst)
 	return dst, m
